@@ -32,6 +32,7 @@ type rpcRec struct {
 	Msgs      []msgRec `json:"msgs"`
 	NMsgs     int      `json:"n_msgs"`
 	DataBytes int64    `json:"data_bytes"`
+	LastEnd   int64    `json:"last_end_offset"` // stream position after the last message sent
 	Cut       bool     `json:"cut,omitempty"`
 	Done      bool     `json:"done"`
 	Err       string   `json:"err,omitempty"`
@@ -110,6 +111,18 @@ func (ln *leaderNode) cutState() (fired, handlerReturned bool) {
 		}
 	}
 	return true, false
+}
+
+// lastDelivered: stream position after the last message of the most recent transfer RPC.
+func (ln *leaderNode) lastDelivered() (end int64, ok bool) {
+	ln.mu.Lock()
+	defer ln.mu.Unlock()
+	for i := len(ln.rpcs) - 1; i >= 0; i-- {
+		if r := ln.rpcs[i]; r.Transfer >= 0 {
+			return r.LastEnd, r.NMsgs > 0 && !r.Done
+		}
+	}
+	return 0, false
 }
 
 func (ln *leaderNode) snapshotRPCs() []rpcRec {
@@ -194,6 +207,7 @@ func (s *cutStream) Send(m *pb.SyncResponse) error {
 	if err == nil {
 		s.rec.NMsgs++
 		s.rec.DataBytes += int64(len(m.GetData()))
+		s.rec.LastEnd = m.GetOffset()
 		if len(s.rec.Msgs) < 12 {
 			s.rec.Msgs = append(s.rec.Msgs, msgRec{Code: m.GetCode().String(), Aof: m.GetMeta().GetAof(),
 				RunID: m.GetMeta().GetRunId(), Offset: m.GetOffset(), Size: m.GetSize()})
